@@ -186,13 +186,26 @@ func Resume(
 		if err != nil {
 			return err
 		}
-		idx.InsertNoReplace(c, uint64(sectionOffset))
+		thisSectionOffset := sectionOffset
 
 		// Seek to the next section by skipping the block.
 		// The section length includes the CID, so subtract it.
-		if sectionOffset, err = v1r.Seek(int64(length)-int64(n), io.SeekCurrent); err != nil {
+		remaining := int64(length) - int64(n)
+		if sectionOffset, err = v1r.Seek(remaining, io.SeekCurrent); err != nil {
 			return err
 		}
+		// Seeking never fails on a short file, so make sure the block's data is all there:
+		// a section torn by an interrupted write cannot be resumed from.
+		if remaining > 0 {
+			var last [1]byte
+			if _, err := v1r.ReadAt(last[:], sectionOffset-1); err != nil {
+				if err == io.EOF {
+					err = io.ErrUnexpectedEOF
+				}
+				return err
+			}
+		}
+		idx.InsertNoReplace(c, uint64(thisSectionOffset))
 	}
 	// Seek to the end of last skipped block where the writer should resume writing.
 	_, err = dataWriter.Seek(sectionOffset, io.SeekStart)
